@@ -296,6 +296,70 @@ func controlFileVisibility(o *hc.Out, g *hc.Gen, scratch string) {
 	}
 }
 
+// pausedCreate: two processes CREATE the same table.  The loser is held (VERIF_PAUSE_AT) at a chosen step — after
+// its existence check, before or after it has the lock — while the winner creates, fills and commits the table.
+// Whatever the loser then reports, the winner's committed table is untouched and nothing is left behind.
+func pausedCreate(o *hc.Out, bin, scratch string) {
+	for i, point := range []string{"lock.check#1", "lock.create#1", "lock.recheck#1", "create.open#1"} {
+		d := filepath.Join(scratch, fmt.Sprintf("c09c-%d", i))
+		_ = os.RemoveAll(d)
+		_ = os.MkdirAll(d, 0o755)
+		gate := filepath.Join(d, "gate")
+		run := func(stmt string, env ...string) (string, error) {
+			cmd := exec.Command(bin, "--repository", d, "--quiet", "--wait-timeout", "3", stmt)
+			cmd.Dir = d
+			cmd.Env = append(append(os.Environ(), "HOME="+d), env...)
+			out, err := cmd.CombinedOutput()
+			return string(out), err
+		}
+		type res struct {
+			out string
+			err error
+		}
+		done := make(chan res, 1)
+		go func() {
+			out, err := run("CREATE TABLE `x.csv` (a, b); INSERT INTO `x.csv` VALUES (9, 9); COMMIT;", "VERIF_PAUSE_AT="+point+":"+gate)
+			done <- res{out, err}
+		}()
+		reached := false
+		for k := 0; k < 2000; k++ {
+			if _, err := os.Stat(gate + ".reached"); err == nil {
+				reached = true
+				break
+			}
+			time.Sleep(5 * time.Millisecond)
+		}
+		out2, err2 := run("CREATE TABLE `x.csv` (a, b); INSERT INTO `x.csv` VALUES (1, 2), (3, 4); COMMIT;")
+		_ = os.WriteFile(gate, nil, 0o644)
+		r1 := <-done
+		_ = os.Remove(gate)
+		_ = os.Remove(gate + ".reached")
+		b, rerr := os.ReadFile(filepath.Join(d, "x.csv"))
+		rep := map[string]interface{}{"loser_held_at": point, "held": reached, "winner_output": out2, "winner_ok": err2 == nil, "loser_output": r1.out, "loser_ok": r1.err == nil, "file": string(b)}
+		switch {
+		case err2 == nil && r1.err != nil:
+			// the winner committed, the loser failed: the table is the winner's
+			if rerr != nil || string(b) != "a,b\n1,2\n3,4\n" {
+				o.Law("create_loser_removed_winners_table", rep)
+			}
+		case err2 != nil && r1.err == nil:
+			// the held process already had the table (held after taking the lock): the table is its own
+			if rerr != nil || string(b) != "a,b\n9,9\n" {
+				o.Law("create_winner_lost_its_table", rep)
+			}
+		case err2 == nil && r1.err == nil:
+			o.Law("both_creates_succeeded", rep)
+		}
+		if st := fsState(d, "x.csv"); st != "L0R0" {
+			rep["state"] = st
+			o.Law("control_files_left", rep)
+		}
+		o.Eval()
+		o.NonTrivial(fmt.Sprintf("pausedcreate:%s:%v:%v", point, err2 == nil, r1.err == nil))
+		_ = os.RemoveAll(d)
+	}
+}
+
 // lockTimeouts: while one handler holds the table for update (or for read), a second one that cannot get
 // access within its wait timeout must fail with the lock-timeout error and change nothing.
 func lockTimeouts(o *hc.Out, scratch string, rounds int) {
@@ -464,6 +528,7 @@ func run(seed int64, n int, dir string, _ []string) {
 	if bin := os.Getenv("VERIF_CSVQ"); bin != "" {
 		realProcesses(o, g, bin, scratch, 2+n/400)
 		pausedRMW(o, bin, scratch)
+		pausedCreate(o, bin, scratch)
 		accessForms(o, bin, scratch)
 	}
 	lockTimeouts(o, scratch, 2+n/100)
